@@ -257,6 +257,15 @@ def step (line : String) : String :=
   match line.splitOn " => " with
   | [req, impl] =>
     match words req with
+    | ["mal", "sasl", _, hex] =>
+      -- the un-framed SASL exchange (saslauthenticate.readResp): INT32 length, then that many bytes
+      match ofHex hex with
+      | none => "bad-hex"
+      | some bs =>
+        let out : String := match Spec.pInt 4 bs with
+          | none => "err"
+          | some (n, r) => if n < 0 then "err" else if n.toNat ≤ r.length then "ok" else "err"
+        answer out (impl == "ok" || impl == "err")
     | ["connresp", _op, _ver, _k, _len, digest] =>
       -- a well-formed response delivered in two pieces cut at k: decoded without error, exactly the frame
       -- consumed (0 bytes left in the Conn's buffer), same values as encoded
